@@ -185,7 +185,9 @@ def enumerate_cases(tier):
             for op in ("*", "/"):
                 trials = [[0, 3, 0, 2, 2],
                           [1 + i, _enc(-7.5), 2 + j, _enc(0.25), _enc(-0.5)],
-                          [7 * i + 3 * j + 3, 12, 5 * j + i + 1, _enc(-3e-4), 3]]
+                          [7 * i + 3 * j + 3, 12, 5 * j + i + 1, _enc(-3e-4), 3],
+                          # operands in the units with the smallest / largest factor of their class
+                          ["min", 2, "min", 3, 2], ["max", 2, "min", 3, _enc(0.5)]]
                 cases.append({"t": "pair", "a": a, "b": b, "op": op, "trials": trials})
     zero = [0] * 9
     exps = [x for x in range(-9, 10) if x != 0]
@@ -417,7 +419,9 @@ def _run_pair(case, out):
     for ua, va, ub, vb, k in case["trials"]:
         va, vb, k = _num(va), _num(vb), _num(k)
         ula, ulb = list(A._units), list(B._units)
-        unit_a, unit_b = ula[ua % len(ula)], ulb[ub % len(ulb)]
+        pick = lambda cls, ul, u: (min if u == "min" else max)(ul, key=lambda x: cls._units[x]) \
+            if isinstance(u, str) else ul[u % len(ul)]
+        unit_a, unit_b = pick(A, ula, ua), pick(B, ulb, ub)
         det = {"a": A.__name__, "b": B.__name__, "op": op, "ua": unit_a, "ub": unit_b,
                "va": repr(va), "vb": repr(vb)}
         try:
